@@ -45,8 +45,12 @@ const (
 // phiChoices gives, for the blocks of fn on p, the operand each phi took.
 func phiChoices(p *pathx.Path, fn *ssa.Function) map[*ssa.Phi]ssa.Value {
 	out := map[*ssa.Phi]ssa.Value{}
+	blocks := p.AllBlocks
+	if len(blocks) == 0 {
+		blocks = p.Blocks
+	}
 	var pred *ssa.BasicBlock
-	for _, b := range p.Blocks {
+	for _, b := range blocks {
 		if b.Parent() != fn {
 			continue
 		}
@@ -62,6 +66,32 @@ func phiChoices(p *pathx.Path, fn *ssa.Function) map[*ssa.Phi]ssa.Value {
 			}
 		}
 		pred = b
+	}
+	return out
+}
+
+// phiChoicesAll: the same for every function entered on the path.
+func phiChoicesAll(p *pathx.Path) map[*ssa.Phi]ssa.Value {
+	out := map[*ssa.Phi]ssa.Value{}
+	blocks := p.AllBlocks
+	if len(blocks) == 0 {
+		blocks = p.Blocks
+	}
+	pred := map[*ssa.Function]*ssa.BasicBlock{}
+	for _, b := range blocks {
+		f := b.Parent()
+		for _, ins := range b.Instrs {
+			phi, ok := ins.(*ssa.Phi)
+			if !ok {
+				break
+			}
+			for i, pb := range b.Preds {
+				if pb == pred[f] && i < len(phi.Edges) {
+					out[phi] = phi.Edges[i]
+				}
+			}
+		}
+		pred[f] = b
 	}
 	return out
 }
@@ -500,7 +530,9 @@ func (c *Ctx) adp9() {
 			}
 		}
 		// (the counters follow the construction of the client: only segments that contain it are judged)
-		built := p.Index(0, func(e *pathx.Event) bool { return e.Kind == pathx.KCall && e.Callee != nil && e.Callee.Name() == "newClient" }) >= 0
+		built := p.Index(0, func(e *pathx.Event) bool {
+			return e.Kind == pathx.KCall && e.Callee != nil && e.Callee.Name() == "newClient"
+		}) >= 0
 		if goesOn && built {
 			cov := get("non-empty-list⇒its-counters-installed")
 			switch {
@@ -537,21 +569,59 @@ const (
 	leafP
 )
 
-// pathBindings: parameter → argument for the callees expanded in place on p.
+// pathBindings: what the values of callees expanded in place on p stand for
+// in the caller: parameter → argument, and the call (or its extracted
+// results) → what the callee returned on this path.
 func pathBindings(p *pathx.Path) map[ssa.Value]ssa.Value {
 	out := map[ssa.Value]ssa.Value{}
+	type open struct {
+		call *pathx.Event
+		fn   *ssa.Function
+	}
+	var stack []open
 	for i := range p.Events {
 		e := &p.Events[i]
-		if e.Kind != pathx.KEnter || i == 0 {
-			continue
-		}
-		call := &p.Events[i-1]
-		if call.Kind != pathx.KCall || call.Callee != e.Callee {
-			continue
-		}
-		for k, pr := range e.Callee.Params {
-			if k < len(call.Args) {
-				out[pr] = call.Args[k]
+		switch e.Kind {
+		case pathx.KEnter:
+			if i == 0 {
+				continue
+			}
+			call := &p.Events[i-1]
+			if call.Kind != pathx.KCall || call.Callee != e.Callee {
+				stack = append(stack, open{nil, e.Callee})
+				continue
+			}
+			for k, pr := range e.Callee.Params {
+				if k < len(call.Args) {
+					out[pr] = call.Args[k]
+				}
+			}
+			stack = append(stack, open{call, e.Callee})
+		case pathx.KLeave:
+			if len(stack) == 0 {
+				continue
+			}
+			top := stack[len(stack)-1]
+			stack = stack[:len(stack)-1]
+			if top.call == nil {
+				continue
+			}
+			ci, ok := top.call.Instr.(ssa.Value)
+			if !ok {
+				continue
+			}
+			switch len(e.Results) {
+			case 0:
+			case 1:
+				out[ci] = e.Results[0]
+			default:
+				if refs := ci.Referrers(); refs != nil {
+					for _, r := range *refs {
+						if ex, ok := r.(*ssa.Extract); ok && ex.Index < len(e.Results) {
+							out[ex] = e.Results[ex.Index]
+						}
+					}
+				}
 			}
 		}
 	}
